@@ -770,6 +770,9 @@ func loadSweepBaseline(p string) (*sweepBaseline, map[string]bool, map[string]bo
 // undecided there (not part of the claim, retried in the thorough tier).
 func runSafetySweep(e *Engine, res *checkResult, timeout int, two bool, work string, stats *solveStats) {
 	p := res.prop
+	// contract clauses tagged with the property (loop variants of the
+	// termination kernel, preconditions) are proved like for every other property
+	runContractProperty(e, res, timeout, two, work, stats)
 	e.curProp = p
 	writeBaseline := os.Getenv("GOVC_WRITE_BASELINE") != ""
 	_, based, baseu := loadSweepBaseline(p)
@@ -891,7 +894,7 @@ func runSafetySweep(e *Engine, res *checkResult, timeout int, two bool, work str
 	res.extra["baseline_obligations_no_longer_generated"] = missing
 	res.extra["undecided_now_discharged"] = newlyDischarged
 	res.extra["level"] = "other"
-	res.extra["explanation"] = "two parts: (1) deductive - every index, slice, nil-dereference, map-write, type-assertion, division and explicit-panic site of every repository function is a zero-annotation obligation; the sites discharged on the unchanged tree (baseline/C20.json) are proved safe for all inputs and must stay discharged, the remaining sites are undecided and not part of the claim; (2) bounded - the property's own finite input family is executed on the real parsers/planners with panics recovered (quick: the first 2 lines of every text, thorough: the first 25); a panic is a confirmed failing input. Termination ('never hang') is not covered."
+	res.extra["explanation"] = "two parts: (1) deductive - every index, slice, nil-dereference, map-write, type-assertion, division and explicit-panic site of every repository function is a zero-annotation obligation; the sites discharged on the unchanged tree (baseline/C20.json) are proved safe for all inputs and must stay discharged, the remaining sites are undecided and not part of the claim; (2) bounded - the property's own finite input family is executed on the real parsers/planners with panics recovered (quick: the first 2 lines of every text, thorough: the first 25); a panic or an execution that does not return within 20 s is a confirmed failing input. Termination ('never hang') is proved only for the loops that carry a decreases clause (termination kernel, see DESIGN.md); elsewhere it is covered by the bounded runs only."
 }
 
 // runBoundedC20: bounded stand-in and replay engine for C20 - the real parsers
@@ -941,6 +944,9 @@ func runBoundedC20(e *Engine, res *checkResult, work string) {
 			src = strings.TrimSpace(l[line-1])
 		}
 		id := "panic@" + file + "::" + src
+		if f.Site == "hang" {
+			id = "hang@" + f.Model
+		}
 		sites = append(sites, id)
 		isKnown := false
 		for _, k := range known {
@@ -963,6 +969,10 @@ func runBoundedC20(e *Engine, res *checkResult, work string) {
 			"how_to_replay": "/verif/repro/C20_replay.sh " + rp}
 		jd, _ := json.MarshalIndent(rec, "", " ")
 		os.WriteFile(rp, jd, 0644)
+		if f.Site == "hang" {
+			res.violations = append(res.violations, violation{name: fmt.Sprintf("an execution of the %s parser/planner did not terminate (%s); the rest of the bounded family was not explored in this run", f.Model, f.Panic), replay: rp, confirmed: true})
+			continue
+		}
 		res.violations = append(res.violations, violation{name: fmt.Sprintf("runtime panic at %s (%s): %s", f.Site, src, f.Panic), replay: rp, confirmed: true})
 	}
 	res.bounded = append(res.bounded, map[string]any{
